@@ -3,9 +3,11 @@ package c17
 import (
 	"errors"
 	"fmt"
+	"runtime"
 	"sort"
 	"strings"
 	"sync"
+	"sync/atomic"
 	"testing"
 	"time"
 
@@ -474,3 +476,85 @@ func classify(c Case, fail string) string {
 var propIdem = vk.Register(&vk.Prop[Case]{Property: property, Name: "schedule", Gen: genCase, Check: check, Classify: classify, Quick: 4000, Thorough: 8000})
 
 func TestSchedule(t *testing.T) { propIdem.Run(t) }
+
+// ---- re-use of a key after its lifetime, real goroutines, the middleware's default storage -----------------
+//
+// The scheduled property above owns the interleaving but sees storage calls as atomic steps. Here the storage is the
+// one the middleware creates itself (in-memory, its own locking) and the goroutines are real: a key is used, its
+// lifetime elapses (virtual clock; the stale entry is still in the storage, whose purge runs on a real-time ticker),
+// and several duplicates arrive at once. In the new lifetime the handler must complete once, and every duplicate must
+// get that answer - also when lookups of the stale entry overlap with the recording of the fresh one.
+
+type StaleCase struct{ Note string }
+
+var propStale = vk.Register(&vk.Prop[StaleCase]{Property: property, Name: "stalekey", Gen: func(*rapid.T) StaleCase { return StaleCase{} },
+	Check: func(StaleCase) vk.Verdict { return vk.Verdict{Skip: true} }, Quick: 1, Thorough: 1})
+
+func TestStaleKey(t *testing.T) {
+	rounds, dups := 40000, 8
+	if vk.Tier() == "thorough" {
+		rounds = 120000
+	}
+	vk.SetNow(5_000_000)
+	app := fiber.New()
+	app.Use(idempotency.New(idempotency.Config{Lifetime: 2 * time.Second}))
+	var counts sync.Map // key -> *int64
+	app.Post("/", func(ctx fiber.Ctx) error {
+		k := ctx.Get("X-Idempotency-Key")
+		c, _ := counts.LoadOrStore(strings.Clone(k), new(int64))
+		n := atomic.AddInt64(c.(*int64), 1)
+		return ctx.SendString(fmt.Sprintf("%s#%d", k, n))
+	})
+	h := app.Handler()
+	post := func(key string) string {
+		var ctx fasthttp.RequestCtx
+		ctx.Request.Header.SetMethod("POST")
+		ctx.Request.SetRequestURI("/")
+		ctx.Request.Header.Set("X-Idempotency-Key", key)
+		h(&ctx)
+		return fmt.Sprintf("%d %s", ctx.Response.StatusCode(), ctx.Response.Body())
+	}
+	seed := vk.Seed()
+	bad := 0
+	var first string
+	for r := 0; r < rounds && bad < 3; r++ {
+		key := fmt.Sprintf("%012d-%023d", seed%1_000_000, r)
+		if got := post(key); got != "200 "+key+"#1" {
+			t.Fatalf("round %d: first use of key %s answered %q", r, key, got)
+		}
+		vk.Advance(3) // the lifetime (2 s) has elapsed; nothing has purged the entry yet
+		answers := make([]string, dups)
+		var wg sync.WaitGroup
+		for g := 0; g < dups; g++ {
+			wg.Add(1)
+			go func(g int) {
+				defer wg.Done()
+				for i := 0; i < (g*7+r)%5; i++ {
+					runtime.Gosched()
+				}
+				answers[g] = post(key)
+			}(g)
+		}
+		wg.Wait()
+		late := post(key) // and one more when all is quiet
+		c, _ := counts.Load(key)
+		n := atomic.LoadInt64(c.(*int64))
+		ok := n == 2 && late == "200 "+key+"#2"
+		for _, a := range answers {
+			ok = ok && a == "200 "+key+"#2"
+		}
+		vk.Rec.Count("stalekey", uint64(r), true, []string{"stale-key-reused-by-concurrent-duplicates"}, func() any { return map[string]any{"key": key, "answers": answers} })
+		if !ok {
+			bad++
+			if first == "" {
+				first = fmt.Sprintf("round %d: key %s was used once, its lifetime elapsed, then %d concurrent duplicates and a late one arrived: the handler completed %d times in the new lifetime (want 1); answers %q, late %q", r, key, dups, n-1, answers, late)
+			}
+		}
+		counts.Delete(key)
+	}
+	if bad > 0 {
+		path := vk.SaveReplay(propStale, StaleCase{Note: first}, first)
+		vk.Rec.Violation("stalekey", path)
+		t.Errorf("VIOLATION-CANDIDATE property=%s test=stalekey replay=%s\n%s", property, path, first)
+	}
+}
